@@ -33,6 +33,24 @@ class Ctx(object):
             self.errors.append("%s: %s" % (getattr(rule_fn, "__name__", "?"), e))
             return None
 
+    def do_as(self, rule_fn, rename, *args, **kwargs):
+        """run a rule written for another property as a NECESSARY CONDITION of this one: the instances (and floors) it produces
+        under the rule ids in `rename` are re-labelled, so that reports, floors and known-finding keys belong to this property"""
+        n0 = len(self.run.instances)
+        f0 = dict(self.run.floors)
+        try:
+            return self.do(rule_fn, *args, **kwargs)
+        finally:
+            for inst in self.run.instances[n0:]:
+                if inst.rule in rename:
+                    inst.rule = rename[inst.rule]
+            for r_, v in list(self.run.floors.items()):
+                if r_ in rename and f0.get(r_) != v:
+                    del self.run.floors[r_]
+                    if r_ in f0:
+                        self.run.floors[r_] = f0[r_]
+                    self.run.floors[rename[r_]] = max(v, self.run.floors.get(rename[r_], 0))
+
     @property
     def prog(self):
         if self._prog is None:
